@@ -15,7 +15,7 @@ Driver of C19. Payload (space separated):
   number; panic otherwise — resp. the number of arguments), `opaque`
   (a function of the generated stdlib: assumed not to panic, values unknown), `notfunc`.
 * values: `z` nil, `b:0|1`, `n:<float64 bits|nan>`, `g:<bits>` float32 (as float64 bits),
-  `i:<kind>:<decimal>`, `s:<hex>`, `l[…]`, `m{…}`, `N<n>(<value>)` (a value of a defined type), `f` (an ECAL function object), `e` (the
+  `i:<kind>:<decimal>`, `s:<hex>`, `l[…]`, `m{…}`, `q<type>[v,…]` (a Go slice/array), `p<ktype>/<vtype>{k=v,…}` (a Go map), `N<n>(<value>)` (a value of a defined type), `f` (an ECAL function object), `e` (the
   harness's error value). An argument number carries the platform's conversion to the
   parameter's integer kind as `n:<bits>:<decimal>` (`-` if the parameter is not of integer kind),
   followed by `!` when the value is outside the kind's range: Go leaves that conversion
@@ -65,6 +65,16 @@ partial def parseTy (s : String) : Option Ty :=
       | 'o' :: rest => (String.ofList rest).toNat?.map Ty.other
       | _ => none
 
+partial def showTy : Ty → String
+  | .int k => kindName k
+  | .f32 => "f32" | .f64 => "f64" | .bool => "bool" | .str => "str"
+  | .iface => "iface" | .error => "error" | .ifaceOther n => "io" ++ toString n
+  | .slice t => "S" ++ showTy t
+  | .emap => "emap"
+  | .other n => "o" ++ toString n
+  | .gmap k v => "M" ++ showTy k ++ "/" ++ showTy v
+  | .named n u => "N" ++ toString n ++ "(" ++ showTy u ++ ")"
+
 def parseTys (s : String) : Option (List Ty) :=
   if s = "-" then some [] else (s.splitOn ",").mapM parseTy
 
@@ -110,9 +120,49 @@ def encodeF64 : Num → String
 def parseNumBits (s : String) : Option Num :=
   if s = "nan" then some .nan else (parseHexNat s).map decodeF64
 
+/-- split at the top-level occurrences of `sep` (outside brackets / braces / parentheses) -/
+def splitTop (cs : List Char) (sep : Char) : List (List Char) :=
+  let rec go (cs : List Char) (depth : Nat) (cur : List Char) (acc : List (List Char)) : List (List Char) :=
+    match cs with
+    | [] => (cur.reverse :: acc).reverse
+    | c :: rest =>
+      if c == sep && depth == 0 then go rest depth [] (cur.reverse :: acc)
+      else if c == '[' || c == '{' || c == '(' then go rest (depth + 1) (c :: cur) acc
+      else if c == ']' || c == '}' || c == ')' then go rest (depth - 1) (c :: cur) acc
+      else go rest depth (c :: cur) acc
+  go cs 0 [] []
+
+def valsOfList : List Val → Vals
+  | [] => .nil
+  | v :: vs => .cons v (valsOfList vs)
+
 /-- a value token; for `n:<bits>:<oracle>` also the oracle -/
 partial def parseVal (s : String) : Option (Val × Option Int) :=
   match s.toList with
+  -- q<type>[v,v,…] a Go slice / array; p<ktype>/<vtype>{k=v,…} a Go map
+  | 'q' :: rest =>
+    let tyS := String.ofList (rest.takeWhile (· != '['))
+    let inner := ((rest.dropWhile (· != '[')).drop 1).dropLast
+    do
+      let t ← parseTy tyS
+      let items ← (if inner.isEmpty then some [] else
+        (splitTop inner ',').mapM fun cs => (parseVal (String.ofList cs)).map (·.1))
+      pure (.seq t (valsOfList items), none)
+  | 'p' :: rest =>
+    let tyS := String.ofList (rest.takeWhile (· != '{'))
+    let inner := ((rest.dropWhile (· != '{')).drop 1).dropLast
+    match tyS.splitOn "/" with
+    | [kS, vS] => do
+      let kt ← parseTy kS
+      let vt ← parseTy vS
+      let items ← (if inner.isEmpty then some [] else
+        (splitTop inner ',').mapM fun cs =>
+          match splitTop cs '=' with
+          | [k, v] => do
+            let k ← parseVal (String.ofList k); let v ← parseVal (String.ofList v); pure [k.1, v.1]
+          | _ => none)
+      pure (.gomap kt vt (valsOfList items.flatten), none)
+    | _ => none
   | 'N' :: rest =>
     let idS := String.ofList (rest.takeWhile (· != '('))
     let inner := ((rest.dropWhile (· != '(')).drop 1).dropLast
@@ -134,7 +184,11 @@ partial def parseVal (s : String) : Option (Val × Option Int) :=
     do let x ← parseNumBits b; pure (.f64 x, o.toInt?)
   | _ => none
 
-def showVal : Val → String
+partial def showVal : Val → String
+  | .seq t xs => "q" ++ showTy t ++ "[" ++ ",".intercalate (xs.toList.map showVal) ++ "]"
+  | .gomap kt vt kvs => "p" ++ showTy kt ++ "/" ++ showTy vt ++ "{" ++ ",".intercalate (showPairs kvs.toList) ++ "}"
+  | .elist xs => "l[" ++ ",".intercalate (xs.toList.map showVal) ++ "]"
+  | .emapv kvs => "m{" ++ ",".intercalate (showPairs kvs.toList) ++ "}"
   | .nil => "z"
   | .bool b => if b then "b:1" else "b:0"
   | .int k n => "i:" ++ kindName k ++ ":" ++ toString n
@@ -145,6 +199,12 @@ def showVal : Val → String
   | .map c => c
   | .foreign _ c => c
   | .named id v => "N" ++ toString id ++ "(" ++ showVal v ++ ")"
+where
+  showPairs : List Val → List String := fun l =>
+    let rec pairs : List Val → List String
+      | k :: v :: rest => (showVal k ++ "=" ++ showVal v) :: pairs rest
+      | _ => []
+    ((pairs l).toArray.qsort (· < ·)).toList
 
 def showRet : Ret → String
   | .one v => showVal v
@@ -244,18 +304,26 @@ def runCase (payload : String) : String :=
           | .many vs => "l[" ++ ",".intercalate (zipM maskRes vs) ++ "]"
         let nt := if reached.isSome then "\tnt=1" else ""
         let opaqueV := bodyS = "opaque"
-        let res :=
+        -- `tr` is applied to what Run returned before it is printed: `id` = the code as it is (model);
+        -- `demandedResult` = what the property demands of nested results (known finding nested-result-numbers)
+        let line := fun (tr : Ret → Ret) =>
           if mode = "D" then
             match out with
             | .escaped => "X"
-            | .done r none => "V " ++ (if opaqueV then "?" else showRet r) ++ " " ++ recv
+            | .done r none => "V " ++ (if opaqueV then "?" else showRet (tr r)) ++ " " ++ recv
             | .done _ (some (.func _)) => "E f " ++ recv
             | .done _ (some _) => "E b " ++ recv
           else
             match executeFunction true errKind out with
             | .crash => "X"
-            | .value r => "V " ++ (if opaqueV then "?" else showRet r) ++ " " ++ recv
+            | .value r => "V " ++ (if opaqueV then "?" else showRet (tr r)) ++ " " ++ recv
             | .runtimeError => (if mode = "T" then "C " else "E ") ++ recv
+        let demand : Ret → Ret := fun r => match r with
+          | .one v => .one (demandedResult .iface v)
+          | .many vs => .many (vs.map (demandedResult .iface))
+        let res := line id
+        let spec := line demand
+        let res := if spec = res then res else res ++ "\tkf=nested-result-numbers\tspec=" ++ spec
         res ++ nt
     | _, _ => "bad-payload"
   | _ => "bad-payload"
